@@ -26,14 +26,19 @@ project = WP.make_project(ID)
 relevant_verdict = WP.make_relevant(ID)
 
 PLAIN = [b"example.org", b"a.b", b"sub.example.org", b"x-y.z", b"EXAMPLE.org", b"org", b"b", b"e.org", b"1.2", b"-", b"a-", b"Ab.Cd", b"example.org.uk", b"ple.org", b".org", b"a.", b"..", b"a.b.c.d.e.f"]
-REGEX = [b"/^.*@rx[0-9]+\\.net$/", b"/@up/", b"/^[a-c]+$", b"/\\.org$/", b"/@(a|b)\\.c$/", b"/^x/", b"/@.*b/", b"/example/"]
+REGEX = [b"/^.*@rx[0-9]+\\.net$/", b"/@up/", b"/^[a-c]+$", b"/\\.org$/", b"/@(a|b)\\.c$/", b"/^x/", b"/@.*b/", b"/example/",
+         # expressions that tell an octet from its printable escape: they see the User-Name as it was sent, not as it is logged
+         b"/^.@/", b"/^..@/", b"/%/", b"/^[^%]*$/"]
 
 
 def user_variants(rng, names):
     n = rng.choice(names) if names else b"example.org"
+    if rng.random() < 0.04:
+        return b""                                # the shortest User-Name: only '*' and expressions matching the empty text take it
     if n.startswith(b"/") or n == b"*":
         return rng.choice([b"a@rx12.net", b"a@RX7.NET", b"a@rx.net", b"@up", b"x@UP.y", b"abc", b"abcd", b"x@a.c", b"x@B.C", b"x@c.c", b"xy", b"ax", b"u@a.b", b"u@ab",
-                           b"u@example", b"EXAMPLE", b"u@foo.org", b"u@foo.orgx", b"\xffx@up\x80"])
+                           b"u@example", b"EXAMPLE", b"u@foo.org", b"u@foo.orgx", b"\xffx@up\x80",
+                           b"\xe9@a.c", b"\xc3\xa9@a.c", b"\x01@up", b"%e9@a.c", b"\x7f\x80@x", b"j\xf6rg@foo.org"])
     local = rng.choice([b"u", b"", b"user.name", b"\xc3\xa9l", b"\xff", b"a" * rng.choice([1, 100, 240])])
     style = rng.randrange(20)
     v = {0: n, 1: n.upper(), 2: n.lower(), 3: n.swapcase(), 4: b"x" + n, 5: n + b"x", 6: n[1:], 7: n[:-1], 8: n.replace(b".", b"x"), 9: n.replace(b".", b".."),
